@@ -81,3 +81,24 @@ def rat(q):
     if isinstance(q, list):
         return q[0] / q[1]
     return float(q)
+
+
+class HarnessTimeout(Exception):
+    """the real package did not come back within the time a check allows for one run"""
+
+
+def limited(seconds, f, *a, **kw):
+    """run f(*a, **kw) under an alarm: a run of the real package that does not end is an observation (HarnessTimeout),
+    not a hung check"""
+    import signal
+
+    def _alarm(_sig, _frm):
+        raise HarnessTimeout(f"no result within {seconds} s")
+
+    old = signal.signal(signal.SIGALRM, _alarm)
+    signal.alarm(int(seconds))
+    try:
+        return f(*a, **kw)
+    finally:
+        signal.alarm(0)
+        signal.signal(signal.SIGALRM, old)
